@@ -71,6 +71,7 @@ type c09rIn struct{ *simio.Reader }
 func (c09rIn) Close() error { return nil }
 
 func c09rRun(t *testing.T, tape *simrt.Tape, o simwork.Opts) *simwork.Result {
+	simrt.Bump() // progress mark for the worker watchdog (this scenario does not use the seeded scheduler)
 	res := &simwork.Result{Faults: map[string]int{}, Probes: map[string]int{}}
 	c := &c09rCase{JSON: tape.Bool(1, 2, "json"), CutAt: -1, Parallel: 1 + tape.Choose(4, "parallel")}
 	codec := internal.NewCodec(c.JSON)
